@@ -147,6 +147,48 @@ func scenario(res *evid.Result, idx int, root string) {
 		plan["encHeader"] = "edited"
 		res.Count("scenarios_with_rewritten_twin", 1)
 	}
+	if idx%4 == 2 {
+		// two receiver types with a method of the SAME name and unrelated bodies; one of the
+		// two methods is renamed, the other one stays
+		fileT := gen.Func{Name: "tyFileZ", Tags: []string{"same-name-methods"}, Text: `type tyFileZ struct{ n int }
+
+func (f *tyFileZ) Close(a int, b int) (res int) {
+	for i := 0; i < a&7; i++ {
+		tick()
+		res += h1(i, b) + f.n
+	}
+	return res
+}
+`}
+		pool := func(method string) gen.Func {
+			return gen.Func{Name: "tyPoolZ", Tags: []string{"same-name-methods"}, Text: fmt.Sprintf(`type tyPoolZ struct{ s string }
+
+func (p *tyPoolZ) %s(a int, b int) (res int) {
+	if len(p.s) > a {
+		return len(hs1(p.s)) + fact(a&3)
+	}
+	switch {
+	case isEven(b):
+		res = len(hs2(p.s))
+	default:
+		res = -1
+	}
+	return res
+}
+`, method)}
+		}
+		if idx%8 == 2 {
+			base.Funcs = append(base.Funcs, fileT, pool("Close"))
+			keep = append(keep, fileT, pool("Drain"))
+		} else {
+			// the renamed one sorts first
+			base.Funcs = append(base.Funcs, pool("Close"), fileT)
+			keep = append(keep, pool("Drain"), fileT)
+		}
+		plan["(*tyPoolZ).Close"], rename["(*tyPoolZ).Close"] = "renamed", "(*tyPoolZ).Drain"
+		plan["(*tyFileZ).Close"] = "kept"
+		res.Count("scenarios_with_same_name_methods", 1)
+	}
 	if idx%8 == 0 {
 		// functions beyond the fingerprinter's size guard (they all carry the same marker
 		// instead of a fingerprint): one is only renamed, one is removed, an unrelated one of
